@@ -172,6 +172,7 @@ func (d *DeadlineChan[T]) Recv() (b T, err error) {
 // report (or the blocking select may have picked the error while an item was
 // ready), so look once more: queued data is returned before e.
 func (d *DeadlineChan[T]) recvBuffered(e error) (b T, err error) {
+	verifYield("dc.recv.repoll")
 	select {
 	case b = <-d.C:
 		return b, nil
@@ -225,7 +226,9 @@ func (d *DeadlineChan[T]) SetDeadline(t time.Time) error {
 	// Close may have completed since the check above. Setting a deadline
 	// un-expires the deadline channel, which would leave callers that block
 	// from now on without the wake-up Close already delivered: cancel again.
+	verifYield("dc.setdl.recheck")
 	if d.closed.Load() {
+		verifYield("dc.setdl.recancel")
 		d.deadline.Cancel(io.EOF)
 		return io.EOF
 	}
